@@ -50,6 +50,9 @@ CHECKS['C06'] = ('runtime oracle: exact evaluation of the documented pack/unpack
 CHECKS['C10'] = ('runtime oracle: MPFR 512-bit Leibniz determinant / cofactor inverse from the exact inputs, per-entry formula bounds, exact comparison on small-integer unimodular matrices; pure and SIMD-aligned builds',
          'determinant (multiplicative, transpose-invariant), inverse entries and both residual products, inverseTranspose, affineInverse, operator/ forms, adjugate, diagonal builders, QR/RQ, matrix_query on matrices conditioned by construction up to the stated kappa limits; residual/(u*kappa) is measured and reported.',
          TRUST + ' The verdict threshold is the rounding bound of the cofactor scheme; the growth of the residual with kappa^(n-1) for spectra with several small singular values is reported as a measurement (DESIGN 7/C10), not judged.', 'DESIGN.md 7/C10')
+CHECKS['C14'] = ('runtime oracle: integer arithmetic on the IEEE total order; complete enumeration of all finite floats for the one-argument functions, binade-boundary/zero-straddling/random pairs at ULP distances 0..64 for doubles and comparisons; std, CXX98-fallback and SIMD builds',
+         'nextFloat/prevFloat (1-step, n-step, vector forms; ext and gtc spellings), floatDistance(x, nextFloat(x,n)) = n, ULP equal/notEqual for scalar, vec1-4 and all nine matrix shapes, epsilon equal/notEqual/epsilonEqual/epsilonNotEqual for scalar, vector, matrix, quaternion: every answer compared with successor/predecessor/distance computed on the monotone integer index of the IEEE order and with both the exact and the correctly rounded |x-y|.',
+         TRUST, 'DESIGN.md 7/C14')
 REASONS = {}
 
 checks = []
